@@ -796,3 +796,100 @@ Example ex_rules_validators :
   cget 1 s = CFull 2%Z /\ delivered s = [1] /\ emitted s = [(1, to_engine (rbid 1 [1; 2; 3]))] /\
   pending s = [] /\ sget 0 s = SEnded /\ panicked s = false.
 Proof. vm_compute. repeat split. Qed.
+
+(* ---- counting form of at-most-once: deliveries of (d, st) never outnumber the decisions (d, st) ------ *)
+Section Counting.
+Variable V : validators.
+Variable d : bytes.
+Variable st : Z.
+
+Definition is_deliv (e : effect) : bool :=
+  match e with EDeliver _ d' st' => bytes_eqb d d' && (st =? st')%Z | _ => false end.
+Definition is_call (v : sstate) : bool :=
+  match v with SCalling _ d' st' => bytes_eqb d d' && (st =? st')%Z | _ => false end.
+Definition is_look (e : event) : bool :=
+  match e with Lookup _ d' st' => bytes_eqb d d' && (st =? st')%Z | _ => false end.
+Definition cnt_deliv (s : svc) : nat := length (filter is_deliv (eff s)).
+Definition cnt_call (l : list (N * sstate)) : nat := length (filter (fun e => is_call (snd e)) l).
+Definition cnt_look (evs : list event) : nat := length (filter is_look evs).
+Definition ind (b : bool) : nat := if b then 1%nat else 0%nat.
+
+Lemma cnt_ndel_le k l : (cnt_call (ndel k l) <= cnt_call l)%nat.
+Proof.
+  unfold cnt_call, ndel. induction l as [|[k' v] r IH]; cbn; [lia|].
+  destruct (negb (k =? k')); cbn; destruct (is_call v); cbn; lia.
+Qed.
+
+Lemma cnt_ndel_found k l v : nget k l = Some v -> (cnt_call (ndel k l) + ind (is_call v) <= cnt_call l)%nat.
+Proof.
+  unfold cnt_call, ndel. induction l as [|[k' v'] r IH]; cbn; [discriminate|].
+  destruct (N.eqb_spec k k') as [->|Hne]; cbn.
+  - intros [= ->]. fold (ndel k' r). pose proof (cnt_ndel_le k' r) as H. unfold cnt_call in H.
+    destruct (is_call v); cbn; lia.
+  - intros H. specialize (IH H). destruct (is_call v'); cbn; lia.
+Qed.
+
+Lemma cnt_nset k v l : cnt_call (nset k v l) = (ind (is_call v) + cnt_call (ndel k l))%nat.
+Proof. unfold nset, cnt_call. cbn. destruct (is_call v); reflexivity. Qed.
+
+Lemma sget_nget sid s : sget sid s <> SIdle -> nget sid (streams s) = Some (sget sid s).
+Proof. unfold sget. destruct (nget sid (streams s)); [reflexivity|congruence]. Qed.
+
+Definition CInv (evs : list event) (s : svc) : Prop := (cnt_deliv s + cnt_call (streams s) <= cnt_look evs)%nat.
+
+Lemma cnt_look_app evs e : cnt_look (evs ++ [e]) = (cnt_look evs + ind (is_look e))%nat.
+Proof. unfold cnt_look. rewrite filter_app, app_length. cbn. destruct (is_look e); reflexivity. Qed.
+
+Lemma cinv_of evs s s' k new_eff new_streams :
+  eff s' = new_eff ++ eff s -> streams s' = new_streams ->
+  (length (filter is_deliv new_eff) + cnt_call new_streams <= cnt_call (streams s) + k)%nat ->
+  CInv evs s -> (cnt_deliv s' + cnt_call (streams s') <= cnt_look evs + k)%nat.
+Proof.
+  unfold CInv, cnt_deliv. intros -> -> H1 H2. rewrite filter_app, app_length. lia.
+Qed.
+
+Lemma cinv_step evs s e : CInv evs s -> CInv (evs ++ [e]) (step V s e).
+Proof.
+  intros H. unfold CInv at 1. rewrite cnt_look_app. unfold step.
+  assert (Same : forall s', eff s' = eff s -> streams s' = streams s ->
+                 (cnt_deliv s' + cnt_call (streams s') <= cnt_look evs + ind (is_look e))%nat).
+  { intros s' E1 E2. apply (cinv_of evs s s' _ [] (streams s)); [exact E1|exact E2|cbn; lia|exact H]. }
+  destruct (panicked s); [now apply Same|].
+  destruct e as [h b|h|h|sid d' st'|sid|sid]; cbn [is_look].
+  - unfold submit. destruct (nget h (calls s)); [now apply Same|]. destruct (vbid V (to_engine b)); now apply Same.
+  - unfold take. destruct (nget h (calls s)) as [[b|b|b|b]|]; try (now apply Same).
+    apply (cinv_of evs s _ _ [EEngine h (to_engine b)] (streams s)); [reflexivity|reflexivity|cbn; lia|exact H].
+  - unfold abandon. destruct (nget h (calls s)) as [[b|b|b|b]|]; now apply Same.
+  - unfold lookup. destruct (sget sid s) eqn:Hs; try (now apply Same).
+    pose proof (cnt_ndel_le sid (streams s)) as Hle.
+    destruct (vresp V d' st').
+    + destruct (pget d' (pending s)) as [ch|].
+      * apply (cinv_of evs s _ _ [] (nset sid (SCalling ch d' st') (streams s))); [reflexivity|reflexivity| |exact H].
+        rewrite cnt_nset. cbn [is_call filter length]. lia.
+      * apply (cinv_of evs s _ _ [EIgnore sid d' st'] (streams s)); [reflexivity|reflexivity|cbn; lia|exact H].
+    + apply (cinv_of evs s _ _ [EStreamEnd sid true] (nset sid SEnded (streams s))); [reflexivity|reflexivity| |exact H].
+      rewrite cnt_nset. cbn [is_call ind filter is_deliv length]. lia.
+  - unfold callback. destruct (sget sid s) as [|ch d' st'|] eqn:Hs; try (now apply Same).
+    assert (Hg : nget sid (streams s) = Some (SCalling ch d' st')).
+    { rewrite <- Hs. apply sget_nget. rewrite Hs. discriminate. }
+    pose proof (cnt_ndel_found _ _ _ Hg) as Hf. cbn [is_call] in Hf.
+    destruct (cget ch s).
+    + apply (cinv_of evs s _ _ [EDeliver ch d' st'] (nset sid SIdle (streams s))); [reflexivity|reflexivity| |exact H].
+      rewrite cnt_nset. cbn [is_call ind filter is_deliv]. destruct (bytes_eqb d d' && (st =? st')%Z); cbn [ind length] in *; lia.
+    + apply (cinv_of evs s _ _ [] (nset sid SEnded (streams s))); [reflexivity|reflexivity| |exact H].
+      rewrite cnt_nset. cbn [is_call ind filter length]. lia.
+    + apply (cinv_of evs s _ _ [] (nset sid SEnded (streams s))); [reflexivity|reflexivity| |exact H].
+      rewrite cnt_nset. cbn [is_call ind filter length]. lia.
+  - unfold recv_err. destruct (sget sid s); try (now apply Same).
+    pose proof (cnt_ndel_le sid (streams s)) as Hle.
+    apply (cinv_of evs s _ _ [EStreamEnd sid false] (nset sid SEnded (streams s))); [reflexivity|reflexivity| |exact H].
+    rewrite cnt_nset. cbn [is_call ind filter is_deliv length]. lia.
+Qed.
+
+Theorem deliveries_le_decisions evs : (cnt_deliv (run V evs) <= cnt_look evs)%nat.
+Proof.
+  assert (H : CInv evs (run V evs)).
+  { induction evs as [|e evs IH] using rev_ind; [unfold CInv; cbn; lia|]. rewrite run_app. now apply cinv_step. }
+  unfold CInv in H. lia.
+Qed.
+End Counting.
